@@ -136,6 +136,9 @@ pub struct Node {
     pub ev: usize,
     pub name: String,
     pub ns: Ns,
+    /// namespace of the element's children: HTML inside an integration point (svg
+    /// foreignObject/desc/title, MathML mi/mo/mn/ms/mtext, annotation-xml with an HTML encoding)
+    pub content_ns: Ns,
     /// lower-cased names, first duplicate wins
     pub attrs: Vec<(String, String)>,
     pub parent: Option<usize>,
@@ -160,6 +163,18 @@ pub struct Tree {
     pub node_of_ev: Vec<Option<usize>>,
     /// the generator refuses documents outside the claimed domain (e.g. HTML breakout tags in svg)
     pub in_domain: bool,
+}
+
+pub fn is_integration_point(ns: Ns, lname: &str, attrs: &[(String, String)]) -> bool {
+    match ns {
+        Ns::Svg => matches!(lname, "foreignobject" | "desc" | "title"),
+        Ns::MathMl => {
+            matches!(lname, "mi" | "mo" | "mn" | "ms" | "mtext")
+                || (lname == "annotation-xml"
+                    && attrs.iter().any(|(n, v)| n == "encoding" && (v.eq_ignore_ascii_case("text/html") || v.eq_ignore_ascii_case("application/xhtml+xml"))))
+        }
+        Ns::Html => false,
+    }
 }
 
 pub fn dedup_lower(attrs: &[(String, String)]) -> Vec<(String, String)> {
@@ -192,7 +207,7 @@ pub fn build_tree(evs: &[DEv]) -> Tree {
             DEv::Open { name, attrs, slash } => {
                 let lname = name.to_ascii_lowercase();
                 let parent = stack.last().copied();
-                let parent_ns = parent.map(|p| nodes[p].ns).unwrap_or(Ns::Html);
+                let parent_ns = parent.map(|p| nodes[p].content_ns).unwrap_or(Ns::Html);
                 let ns = if lname == "svg" {
                     Ns::Svg
                 } else if lname == "math" {
@@ -203,17 +218,31 @@ pub fn build_tree(evs: &[DEv]) -> Tree {
                 if parent_ns != Ns::Html && BREAKOUT.contains(&lname.as_str()) {
                     in_domain = false;
                 }
+                // An HTML element, inside the HTML content of an integration point, that is named
+                // like an integration point of the enclosing island (`<svg><desc><desc>`,
+                // `<math><mi><mi>`): the namespace simulation is keyed on end-tag names and leaves
+                // the integration point at the inner element's end tag. Stated limit (DESIGN §8.3).
+                if ns == Ns::Html {
+                    if let Some(island) = stack.iter().rev().map(|&n| nodes[n].ns).find(|n| *n != Ns::Html) {
+                        if is_integration_point(island, &lname, &[("encoding".to_string(), "text/html".to_string())]) {
+                            in_domain = false;
+                        }
+                    }
+                }
                 let empty = if ns == Ns::Html { VOID.contains(&lname.as_str()) } else { *slash };
                 let ci = child_count.entry(parent).or_insert(0);
                 *ci += 1;
                 let ti = type_count.entry((parent, lname.clone())).or_insert(0);
                 *ti += 1;
                 let idx = nodes.len();
+                let dattrs = dedup_lower(&attrs.parsed);
+                let content_ns = if is_integration_point(ns, &lname, &dattrs) { Ns::Html } else { ns };
                 nodes.push(Node {
                     ev: i,
                     name: lname,
                     ns,
-                    attrs: dedup_lower(&attrs.parsed),
+                    content_ns,
+                    attrs: dattrs,
                     parent,
                     child_index: *ci,
                     type_index: *ti,
@@ -238,8 +267,17 @@ pub fn build_tree(evs: &[DEv]) -> Tree {
                         if k > 0 && (nodes[n].name == "svg" || nodes[n].name == "math") {
                             in_domain = false;
                         }
+                        // likewise an integration point closed by an end tag seen inside its HTML
+                        // content (the tree builder ignores such an end tag)
+                        if k > 0 && nodes[n].content_ns != nodes[n].ns {
+                            in_domain = false;
+                        }
                     }
                     stack.truncate(pos);
+                } else if stack.iter().any(|&n| nodes[n].ns != Ns::Html) {
+                    // a stray end tag inside an SVG/MathML island: not a well-nested island (the
+                    // namespace simulation is keyed on end-tag names)
+                    in_domain = false;
                 }
             }
             _ => {}
